@@ -130,7 +130,8 @@ package server
 //@   loop 2 invariant 0 <= offset && 0 < size && size <= ghost_S && (offset <= b.Total || offset == 0)
 //@   loop 2 invariant 0 <= len(b.Parts) && (len(b.Parts) == 0 ==> offset == 0)
 //@   loop 2 invariant offset < b.Total ==> size == ghost_S && offset == len(b.Parts) * ghost_S
-//@   loop 2 invariant forall k int :: 0 <= k && k < len(b.Parts) ==> b.Parts[k] != nil && b.Parts[k].Size > 0 && b.Parts[k].N == k && b.Parts[k].Offset == k * ghost_S
+//@   loop 2 invariant forall k int :: 0 <= k && k < len(b.Parts) ==> b.Parts[k] != nil && b.Parts[k].Size > 0 && b.Parts[k].N == k
+//@   loop 2 invariant forall k int :: 0 <= k && k < len(b.Parts) ==> b.Parts[k].Offset == k * ghost_S
 //@   loop 2 invariant forall k int :: 0 <= k && k < len(b.Parts) - 1 ==> b.Parts[k].Size == ghost_S
 //@   loop 2 invariant len(b.Parts) > 0 ==> b.Parts[len(b.Parts) - 1].Offset + b.Parts[len(b.Parts) - 1].Size == offset
 //@   loop 2 decreases b.Total - offset
